@@ -961,18 +961,19 @@ theorem run_append (answer : Handle → SendResult) (s : State) (a b : List Op) 
   | nil => rfl
   | cons op a ih => simp only [List.cons_append, run]; exact ih _
 
+/-- What the sinks answer never influences the registry state. -/
+theorem run_state_indep_of_answers (a b : Handle → SendResult) (s : State) (ops : List Op) :
+    (run a s ops).1 = (run b s ops).1 := by
+  induction ops generalizing s with
+  | nil => rfl
+  | cons op ops ih =>
+    have : (step a s op).1 = (step b s op).1 := by cases op <;> rfl
+    simp only [run, this]; exact ih _
+
 theorem reachable_run (answer : Handle → SendResult) {s : State} (h : Reachable s) (ops : List Op) :
     Reachable (run answer s ops).1 := by
-  -- sinks' answers do not influence the state
-  have hst : ∀ (a b : Handle → SendResult) (s : State) (ops : List Op), (run a s ops).1 = (run b s ops).1 := by
-    intro a b s ops
-    induction ops generalizing s with
-    | nil => rfl
-    | cons op ops ih =>
-      have : (step a s op).1 = (step b s op).1 := by cases op <;> rfl
-      simp only [run, this]; exact ih _
   obtain ⟨a0, h0, rfl⟩ := h
-  exact ⟨answer, h0 ++ ops, by rw [run_append, hst a0 answer State.empty h0]⟩
+  exact ⟨answer, h0 ++ ops, by rw [run_append, run_state_indep_of_answers a0 answer State.empty h0]⟩
 
 theorem inv_after (h : List Op) : Inv (after h) := inv_run _ inv_empty h
 
